@@ -66,6 +66,17 @@ def judge(case):
     if raised:
         classes.append('ctor-raised')
     obs = M.observe(MAIN_REPORT)
+    po = case.get('pool_override')
+    if po and obs and case['resolver'] == 'simple' and not case.get('earlier'):
+        # (pools are applied by report.finalize_feedbacks(), which only the simple resolver family calls)
+        # applied by pedal when the report is finalised (inside resolve); the model applies it to what it observed
+        cls = type(obs[po['index'] % len(obs)].fb)
+        MAIN_REPORT.set_pools(['A'])
+        cls.override_for_pool('A', **{po['field']: po['value']})
+        classes.append('pool-override')
+        for o in obs:
+            if isinstance(o.fb, cls):
+                setattr(o, po['field'], po['value'])
     elig, amb = M.eligible(obs, sups)
     if amb:
         MAIN_REPORT.full_clear()
